@@ -1228,50 +1228,33 @@ class Engine:
             vals[name] = val
         return vals
 
+    def _model_satisfies(self, vals, cond):
+        try:
+            subs = []
+            for i, name in enumerate(VARS.names):
+                v = vals.get(name)
+                if v is None:
+                    continue
+                v = Fraction(v)
+                subs.append((VARS.z3v[i], z3.RealVal(v.numerator) if v.denominator == 1 else z3.Q(v.numerator, v.denominator)))
+            return z3.is_true(z3.simplify(z3.substitute(cond, subs)))
+        except Exception:
+            return False
+
     def generic_model_for(self, extra, vars_, timeout_ms, seed=7):
-        """like model_for, but every variable is pinned to a pseudo-random 'nice' value where the constraints allow
-        it: z3's own models sit on the boundary of tolerance comparisons (x == y + 1e-18), which floats cannot
-        tell apart, so a counterexample gets a second, generic candidate for the float replay."""
-        import random
-        rnd = random.Random(seed)
-        s = z3.Solver()
-        s.set('timeout', 1500)
-        vs = set(vars_)
-        for e, v, _ in self.pc:
-            s.add(e)
-            vs |= v
-        for x in extra:
-            s.add(x)
-        if str(self._timed(s.check, 'ob_queries')) != 'sat':
-            return None
-        deadline = time.time() + min(20.0, timeout_ms / 1000.0)
-        order = sorted(vs)
-        rnd.shuffle(order)
-        for vi in order:
-            if time.time() > deadline:
-                break
-            if VARS.names[vi].startswith(('sqrt!', 'cos!', 'sin!')):
+        """a second, *generic* candidate for the float replay of a counterexample: z3's own models sit on the boundary
+        of tolerance comparisons (x == y + 1e-18), which floats cannot tell apart.  Free variables are pinned to
+        pseudo-random 'nice' values through the LINEAR path condition only (fast), the candidate is then checked
+        numerically against the whole path condition and the negated obligation."""
+        neg = extra[0] if len(extra) == 1 else z3.And(list(extra))
+        for sd in (seed, seed + 1000):
+            m = self._generic_linear_model(sd)
+            if m is None:
                 continue
-            for _ in range(3):
-                if vi in VARS.positive:
-                    val = Fraction(rnd.randint(2, 9), rnd.randint(2, 5))
-                else:
-                    val = Fraction(rnd.randint(-12, 12), rnd.randint(2, 7))
-                c = VARS.z3v[vi] == z3.Q(val.numerator, val.denominator)
-                if str(self._timed(lambda: s.check(c), 'ob_queries')) == 'sat':
-                    s.add(c)
-                    break
-        if str(self._timed(s.check, 'ob_queries')) != 'sat':
-            return None
-        m = s.model()
-        vals = {}
-        for i, name in enumerate(VARS.names):
-            v = m.eval(VARS.z3v[i], model_completion=True)
-            try:
-                vals[name] = _z3frac(v)
-            except ValueError:
-                vals[name] = Fraction(1) if i in VARS.positive else Fraction(0)
-        return vals
+            env = self._numeric_witness(m, extra=(neg,), want_env=True)
+            if env:
+                return {VARS.names[i]: v for i, v in env.items()}
+        return None
 
     # exploration ---------------------------------------------------------------------------------
     def explore(self, harness, params, cx_factory):
@@ -1438,17 +1421,30 @@ class Engine:
                             obs.append({'name': name, 'status': 'unknown', 'how': 'z3', 'detail': detail, 'nontrivial': True})
                     else:
                         already = any(o['status'] == 'cex' and _base(o['name']) == _base(name) for o in obs)
-                        model = None if already else self.model_for([neg], vs, self.ob_timeout_ms)
+                        model = None
+                        if not already:
+                            # an earlier counterexample model of this path often falsifies this obligation as well
+                            for pm in rec.setdefault('_models', []):
+                                if self._model_satisfies(pm, neg):
+                                    model = pm
+                                    break
+                            if model is None:
+                                model = self.model_for([neg], vs, self.ob_timeout_ms)
+                                if model is not None:
+                                    rec['_models'].append(model)
                         alt = None
-                        if model is not None:
+                        if model is not None and not rec.get('alt_done'):
+                            rec['alt_done'] = True          # one generic candidate per path is enough (and cheap)
                             try:
-                                alt = self.generic_model_for([neg], vs, self.ob_timeout_ms)
+                                alt = self.generic_model_for([neg], vs, 6000)
                             except Exception:
                                 alt = None
                         obs.append({'name': name, 'status': 'cex', 'how': 'z3', 'detail': detail,
                                     'model': None if model is None else {k: str(v) for k, v in model.items()},
                                     'alt_models': [] if alt is None else [{k: str(v) for k, v in alt.items()}],
                                     'nontrivial': True})
+        rec.pop('_models', None)
+        rec.pop('alt_done', None)
         if len(self.path_records) < 3:
             self.path_records.append({
                 'path_condition': [str(e)[:120] for e, _, _ in self.pc[-8:]],
